@@ -142,6 +142,15 @@ ADDED['C15'] += ' The gauges never answer from try-locks.'
 ADDED['C16'] += ' Every header preprocessor of recovery / migration builds the output header from the input header.'
 ADDED['C17'] += ' The io read wrappers refuse only unsatisfiable ranges.'
 
+ADDED['C01'] += ' Opened blobs are ordered by their numeric id and nothing else.'
+ADDED['C02'] += ' The storage point lookups answer only after the traversal of all blobs completed.'
+ADDED['C16'] += ' The tools writer re-stamps the header it was given (no fresh header that loses the deletion flag).'
+ADDED['C10'] += ' Bits of the shared bit vector are updated by atomic read-modify-write operations.'
+ADDED['C13'] += ' The maintenance worker waits for the locks it needs (no try-lock that drops a request under load).'
+ADDED['C11'] += ' A per-operation registration in a shared collection is removed on every exit, error exits included.'
+ADDED['C07'] += ' Initialisation bodies that take ids are seeded first; a quarantined blob keeps its own file name.'
+ADDED['C15'] += ' A quarantined blob keeps its own file name (its id stays countable).'
+
 for _k, _v in ADDED.items():
     _t = CHECKS[_k]
     CHECKS[_k] = (_t[0] + _v, _t[1], _t[2])
